@@ -99,8 +99,8 @@ Entries(t, h) == {[tx |-> t, vout |-> v, h |-> h] : v \in 1..Len(OutsOf(t, 0))}
 
 \* signature-operation cost an input adds when it spends output o (BIP 141): the redeem script of a P2SH output
 \* counts 4 per operation, a witness script 1 per operation, a P2WPKH spend 1
-\* (types 9/10: P2SH / P2WSH whose script holds addr x OP_CHECKSIG in a branch that is never executed)
-InSops(o) == IF o.st = 9 THEN 4 * o.addr ELSE IF o.st = 10 THEN o.addr ELSE IF o.st = 5 THEN 1 ELSE 0
+\* (types 9/10/11: P2SH / P2WSH / P2SH-wrapped P2WSH whose script holds addr x OP_CHECKSIG in a branch that is never executed)
+InSops(o) == IF o.st = 9 THEN 4 * o.addr ELSE IF o.st \in {10, 11} THEN o.addr ELSE IF o.st = 5 THEN 1 ELSE 0
 
 \* process the inputs of tx t against view u; returns [u, viol, insum, known, sops]
 RECURSIVE SpendIns(_, _, _, _, _)
